@@ -45,7 +45,7 @@ Section Weak.
   Proof.
     intros [Hl Hn] Hb. split; [exact Hl|]. unfold num_of in *. cbn [new_db store extra]. rewrite find_app.
     destruct (find (ri r0) (store d)) as [e|]; [exact Hn|]. cbn [find eb].
-    destruct (N.eqb_spec (bid b) (ri r0)) as [E|E]; [rewrite (L_num b Hb E); reflexivity | exact Hn].
+    destruct (N.eqb_spec (bid b) (ri r0)) as [E|E]; cbn [eb]; [rewrite (L_num b Hb E); reflexivity | exact Hn].
   Qed.
 
   (* marking sent flags changes no number *)
